@@ -29,9 +29,16 @@ def print_programs(tier):
     f3 = A.file([A.stanza("(module) @m ", [A.mut(v("k"), A.lst(i(1))), A.let(v("z"), A.lst(v("k"), A.call("node-type", c("m")))),
                                            A.prnt(v("z"), A.listc(A.call("plus", v("e"), i(1)), "e", A.lst(i(1), i(2)))), A.node(v("n")),
                                            A.prnt(A.call("named-child-count", c("m")))])])
+    # runs that fail on their own (undefined edge, conflict, type error after some work): a cancellation that arrives first - also
+    # while the value of the failing statement is being evaluated - still wins
+    f4 = A.file([A.stanza("(module) @_m ", [A.node(v("a")), A.node(v("b")), A.attre(v("a"), v("b"), A.attr("w", A.call("plus", i(1), A.call("plus", i(2), i(3)))))])])
+    f5 = A.file([A.stanza("(identifier) @id ", [A.node(v("a")), A.node(v("b")), A.edge(v("b"), v("a")),
+                                                A.attre(v("a"), v("b"), A.attr("t", A.call("source-text", c("id"))), A.attr("u", A.lst(i(1), A.call("plus", i(1), i(1)))))])])
+    f6 = A.file([A.stanza("(module) @_m ", [A.node(v("a")), A.attrn(v("a"), A.attr("k", A.call("plus", i(1), i(1)))), A.attrn(v("a"), A.attr("k", A.call("plus", i(2), i(2))))])])
+    f7 = A.file([A.stanza("(module) @_m ", [A.node(v("a")), A.attrn(v("a"), A.attr("k", A.call("plus", i(1), A.call("plus", s("x"), i(2)))))])])
     out = []
     srcs = [1, 2, 3] if tier == "quick" else list(range(1, A.n_sources() + 1))
-    for k, f in enumerate((f1, f2, f3)):
+    for k, f in enumerate((f1, f2, f3, f4, f5, f6, f7)):
         for sidx in srcs:
             out += A.both_modes("c11p-%d-%d" % (k, sidx), f, sidx)
     return out
